@@ -405,8 +405,11 @@ func (c19w) Gen(r *Rand, i int, tier string) Sx {
 	newPs := make([]string, nb)
 	cfg := []Sx{}
 	hostile := r.Chance(8)
+	shareAll, common := r.Chance(30), c19wAdds[r.Intn(len(c19wAdds))] // every entry with the same add-prefix
 	for k := range pool {
 		switch {
+		case shareAll:
+			newPs[k] = common
 		case hostile && r.Chance(50):
 			newPs[k] = pool[r.Intn(nb)] // another entry's match prefix (or its own)
 		case r.Chance(12):
